@@ -85,7 +85,7 @@ Theorem send_process_plain : forall now s m,
   send_process sc now s m = plain_result now s m.
 Proof.
   intros now s m P C. destruct (plain_fields m P) as (Hc & Hn & Ht & H34 & H43 & _ & _ & _).
-  unfold send_process, send_process_gen, plain_result, wire, filled, per_after.
+  unfold send_process, plain_result, wire, filled, per_after.
   rewrite H43.
   set (m1 := if has_field T_SenderCompID (m_hdr m) then m else add_hdr' sc T_SenderCompID (s_snd s) m).
   set (m2 := if has_field T_TargetCompID (m_hdr m1) then m1 else add_hdr' sc T_TargetCompID (s_tgt s) m1).
